@@ -172,6 +172,9 @@ class Aliases:
         if isinstance(e, ast.Call) and isinstance(e.func, ast.Name) and e.func.id in self._calls and not e.keywords \
                 and all(isinstance(a, (ast.Name, ast.Constant)) for a in e.args):
             return True
+        if isinstance(e, ast.Call) and isinstance(e.func, ast.Attribute) and e.func.attr in self._calls and not e.keywords \
+                and all(isinstance(a, (ast.Name, ast.Constant)) for a in e.args):
+            return self._chain(e.func.value)  # a pure method of a chain (`text.lstrip("@")`)
         return isinstance(e, ast.Name)
 
     def expand(self, node: ast.AST, depth: int = 4) -> ast.AST:
